@@ -55,7 +55,7 @@ def run(R):
         items.append(('LTL', g))
         items.append(('LTL', ('A', g)))
     ctlsp = path_formulas_ops(2, quant=True)
-    for g in rng.sample(ctlsp, 20000 if R.thorough else 3000):
+    for g in rng.sample(ctlsp, min(len(ctlsp), 20000 if R.thorough else 3000)):
         items.append(('CTLS', g))
     for _ in range(20000 if R.thorough else 2500):
         d = rng.randint(2, 5)
